@@ -26,6 +26,8 @@ PY_MODULES = {
     "cminx.parser.CMakeListener": "src/cminx/parser/CMakeListener.py",
     "main": "src/main.py",
 }
+# modules whose private helpers are expanded in place before the structural rules read them (inline.py)
+FLATTEN = {"cminx", "cminx.documenter", "cminx.config", "cminx.parser"}
 # the hand-written part of the package (generated parser files excluded)
 HAND_WRITTEN = ["cminx", "cminx.aggregator", "cminx.documenter", "cminx.documentation_types",
                 "cminx.rstwriter", "cminx.config", "cminx.exceptions", "cminx.parser"]
@@ -55,6 +57,7 @@ class ClassInfo:
     bases: List[str]
     methods: Dict[str, ast.FunctionDef] = field(default_factory=dict)
     is_dataclass: bool = False
+    is_namedtuple: bool = False
     own_fields: List[FieldInfo] = field(default_factory=list)
     class_attrs: Dict[str, ast.expr] = field(default_factory=dict)
 
@@ -67,6 +70,8 @@ class Module:
     source: str
     tree: ast.Module
     parents: Dict[ast.AST, ast.AST] = field(default_factory=dict)
+    orig_tree: Optional[ast.Module] = None
+    inlined_helpers: List[str] = field(default_factory=list)
 
     def parent(self, node):
         return self.parents.get(node)
@@ -86,7 +91,17 @@ class Repo:
                 tree = ast.parse(src, filename=rel)
             except SyntaxError as e:
                 raise AnalysisError(f"{rel} does not parse: {e}")
+            inlined = []
+            orig = tree
+            if name in FLATTEN and not os.environ.get("CMINX_SA_NO_FLATTEN"):
+                from .inline import flatten_module
+                try:
+                    tree, inlined = flatten_module(tree)
+                except RecursionError:
+                    tree, inlined = orig, []
             m = Module(name, p, rel, src, tree)
+            m.orig_tree = orig
+            m.inlined_helpers = inlined
             for parent in ast.walk(tree):
                 for child in ast.iter_child_nodes(parent):
                     m.parents[child] = parent
@@ -109,6 +124,9 @@ class Repo:
             t = norm(d)
             if t.split("(")[0].split(".")[-1] == "dataclass":
                 ci.is_dataclass = True
+        if "NamedTuple" in bases:
+            ci.is_dataclass = True       # positional record with declared field order
+            ci.is_namedtuple = True
         for st in node.body:
             if isinstance(st, (ast.FunctionDef, ast.AsyncFunctionDef)):
                 ci.methods[st.name] = st
